@@ -945,6 +945,20 @@ def sk_num_samples(interp, name, args, kw, st, node):
     return _b_len(interp, args, kw, st, node)
 
 
+@reg("sklearn.model_selection.train_test_split")
+def sk_train_test_split(interp, name, args, kw, st, node):
+    out = []
+    labels = _L(*args, *kw.values())
+    params = kwterms(kw)
+    for i, a in enumerate(args):
+        x = arrv(a)
+        sh = shape(x)
+        rest = tuple(sh[1:]) if sh else ()
+        for part, d in (("train", "R"), ("test", "T")):
+            out.append(fresh_arr(T("split", part, x.term, params), (Dim.of(d),) + rest, labels | frozenset([part]), x.extra if isinstance(x.extra, str) else None))
+    return interp.mk_list(out)
+
+
 @reg("sklearn.metrics.pairwise.pairwise_kernels")
 def sk_pairwise_kernels(interp, name, args, kw, st, node):
     b = bind(["X", "Y", "metric"], args, kw)
